@@ -49,9 +49,10 @@ type tcase struct {
 }
 
 type target struct {
-	name string
-	kind string // "bin" | "text"
-	call func(in []byte) error
+	name    string
+	kind    string // "bin" | "text"
+	perByte int    // allocation allowance per input byte (0 = allocPerByte)
+	call    func(in []byte) error
 }
 
 type calib struct{ cpuNs, bytes int64 }
@@ -79,6 +80,18 @@ func threadCPU() int64 {
 }
 
 func allocBound(n int) uint64 { return uint64(allocSlack + allocPerByte*n) }
+
+// bound is the allocation bound of one entry point. JSON documents get 4096 bytes per input byte:
+// encoding/json itself turns "[{},{},...]" (3 bytes per element) into a slice of the element type grown
+// by doubling, which for the largest element structs of the repository (V2FileContractRevision, ~850
+// bytes) is a LINEAR amplification of about 1200x (measured), above the 1024 of the design, which had
+// assumed 200x. Offenders are 10^5x and more.
+func (t *target) bound(n int) uint64 {
+	if t.perByte > 0 {
+		return uint64(allocSlack + t.perByte*n)
+	}
+	return allocBound(n)
+}
 
 func (m *mon) cpuBound(t *target, n int) int64 {
 	c := 50.0
@@ -348,14 +361,14 @@ func (m *mon) window(f *feeder, cs []tcase) {
 			m.solo(t, &cs[i], cpu[i])
 		}
 	}
-	if len(cs) > 0 && alloc > allocBound(minLen(cs)) {
+	if len(cs) > 0 && alloc > t.bound(minLen(cs)) {
 		b.Count("alloc_windows_over_bound_bisected", 1)
 		remaining := m.unjudged(t, cs)
 		switch {
 		case len(remaining) == len(cs):
 			m.bisect(t, remaining) // the window measurement stands
 		case len(remaining) > 0:
-			if m.quiet(t, remaining) > allocBound(minLen(remaining)) {
+			if m.quiet(t, remaining) > t.bound(minLen(remaining)) {
 				m.bisect(t, remaining)
 			}
 		}
@@ -428,7 +441,7 @@ func (m *mon) bisect(t *target, cs []tcase) {
 		if len(half) == 0 {
 			continue
 		}
-		if a := m.quiet(t, half); a > allocBound(minLen(half)) {
+		if a := m.quiet(t, half); a > t.bound(minLen(half)) {
 			m.bisect(t, half)
 		}
 	}
@@ -457,7 +470,7 @@ func (m *mon) solo(t *target, c *tcase, firstCPU int64) {
 	runtime.ReadMemStats(&m1)
 	runtime.MemProfileRate = old
 	a := m1.TotalAlloc - m0.TotalAlloc
-	abd := allocBound(len(c.data))
+	abd := t.bound(len(c.data))
 	cbd := m.cpuBound(t, len(c.data))
 	m.b.Count("solo_measurements", 1)
 	site := ""
@@ -472,7 +485,7 @@ func (m *mon) solo(t *target, c *tcase, firstCPU int64) {
 		w["allocated_bytes_solo"], w["bound_bytes"], w["allocation_site"] = a, abd, site
 		m.b.MaxOf("max_solo_alloc_over_bound_bytes", int64(a))
 		m.b.Violate(fmt.Sprintf("C10/alloc/%s/%s", site, category(t, c)),
-			fmt.Sprintf("%s allocated %d bytes for a %d-byte %s input (bound 1 MiB + 1024*len = %d), measured alone", t.name, a, len(c.data), c.class, abd), w)
+			fmt.Sprintf("%s allocated %d bytes for a %d-byte %s input (bound %d), measured alone", t.name, a, len(c.data), c.class, abd), w)
 		m.confirmed[skipSig(t, c.class, c.sub, c.data)] = true
 	} else if allocOnly {
 		m.b.Count("alloc_suspects_cleared_by_solo_measurement", 1)
